@@ -6,7 +6,7 @@ CONSTANTS
   D <- FineD
   SD <- WidthSD
   WPats <- FineSweepW
-  StemPlans <- SweepPlans
+  StemPlans <- SweepPlans0
   MaxGlyphs = 2
   MaxSteps = 1
   LineRuns <- NoRuns
